@@ -24,13 +24,16 @@ def _split(nbits):
 
 OBLIGATIONS = [
     chx("soh_max_matching", "C08_h", "h_soh",
-        bounds={"quick": {"P": 3, "S": 3, "srev_only": [0, 5]}, "thorough": {"P": 4, "S": 4, "sorders": [0, 23], "srev_only": [23]}},
+        bounds={"quick": {"P": 3, "S": 3, "srev_only": [0, 5]}, "thorough": {"P": 4, "S": 4, "sorders": [0, 23], "srev_only": []}},
         cases={"quick": _split(3), "thorough": _split(5)},
         timeout={"quick": 150, "thorough": 1500},
         desc="happinessutil.servers_of_happiness (shares_by_server, _flow_network_for, _reindex, residual_network, augmenting_path_for, bfs) "
-             "== z3-decided maximum matching for every relation within the bound; every share-key insertion order (thorough 4x4: two of the 24, the identity and the reversal), "
-             "holder sets built in both directions, share numbers with and without holes; argument not mutated",
+             "== z3-decided maximum matching for every relation within the bound; every share-key insertion order (thorough 4x4: the identity and the reversal, holder sets ascending, no holes), "
+             "quick: holder sets built in both directions, share numbers with and without holes; argument not mutated",
         outside="relations beyond the stated bound (the property text also names seeded random 30x30 relations: not a solver technique)"),
+    chx("soh_3x3_all_variants", "C08_h", "h_soh", tiers=("thorough",),
+        bounds={"thorough": {"P": 3, "S": 3}}, cases={"thorough": _split(3)}, timeout={"thorough": 600},
+        desc="3 servers x 3 shares: every insertion order, holder sets built in both directions and share numbers with holes under every order"),
     chx("soh_all_orders_3x4", "C08_h", "h_soh", tiers=("thorough",),
         bounds={"thorough": {"P": 3, "S": 4, "srev_only": []}}, cases={"thorough": _split(3)}, timeout={"thorough": 1500},
         desc="same as soh_max_matching for 3 servers x 4 shares under all 24 insertion orders (holder sets ascending, share numbers without holes)"),
@@ -52,6 +55,7 @@ OBLIGATIONS = [
         timeout={"quick": 90, "thorough": 600},
         desc="_calculate_mappings without servermap (_flow_network): min(|peers|,|shares|) shares mapped to distinct peers (traced execution)"),
     chx("bfs", "C08_h", "h_bfs", bounds={"quick": {"N": 3}, "thorough": {"N": 4}}, timeout={"quick": 90, "thorough": 900},
+        cases={"thorough": [{"src": i, "_label": "src%d" % i} for i in range(4)]},
         desc="happiness_upload.bfs on every digraph with N vertices, both adjacency orders, every source: predecessor table = shortest-path tree "
              "(oracle: relaxation distances; traced execution)"),
     chx("augmenting_path", "C08_h", "h_augpath", bounds={"quick": {"N": 3}, "thorough": {"N": 4}}, timeout={"quick": 90, "thorough": 900},
